@@ -58,9 +58,11 @@ type Tracker struct {
 	seq            int
 	Tag            string
 	// FailAt: the k-th creation call (0-based over New+CreateRandom) fails when FailAt[k] is set.
-	FailAt  map[int]bool
-	calls   int
-	failRel map[int]func()
+	FailAt                map[int]bool
+	calls                 int
+	failRel               map[int]func()
+	fps                   map[string]bool
+	fpScanned, srcScanned int
 	// Inner, when set, delegates storage to a real factory (real wipe/alloc behaviour).
 	Inner securememory.SecretFactory
 	// SourceBufs retains the caller's slice given to New (to check it is wiped).
@@ -345,4 +347,28 @@ func (t *Tracker) SetTag(tag string) { t.mu.Lock(); t.Tag = tag; t.mu.Unlock() }
 
 func (i SecretInfo) String() string {
 	return fmt.Sprintf("secret#%d{%s %dB fp=%s tag=%q closed=%d reads=%d readsAfterClose=%d}", i.ID, i.Origin, i.Size, i.Fp, i.Tag, i.Closed, i.Reads, i.ReadsAfterClose)
+}
+
+// HasFp reports whether a secret with this content fingerprint was ever created, or
+// a buffer with this fingerprint was ever passed to New.
+func (t *Tracker) HasFp(fp string) bool {
+	t.mu.Lock()
+	defer t.mu.Unlock()
+	if t.fps == nil {
+		t.fps = map[string]bool{}
+	}
+	for ; t.fpScanned < len(t.secrets); t.fpScanned++ {
+		t.fps[t.secrets[t.fpScanned].info.Fp] = true
+	}
+	for ; t.srcScanned < len(t.SourceBufs); t.srcScanned++ {
+		t.fps[t.SourceBufs[t.srcScanned].KeyFp] = true
+	}
+	return t.fps[fp]
+}
+
+// Sources returns the buffers passed to New so far.
+func (t *Tracker) Sources() []*Retained {
+	t.mu.Lock()
+	defer t.mu.Unlock()
+	return append([]*Retained(nil), t.SourceBufs...)
 }
